@@ -147,8 +147,7 @@ func rviMain(x *X) {
 		}
 	}
 	mismatch := func(kind, detail string) {
-		if op.hasTopK() && tieAmbiguous(op, c.Data, op.Eng.LookbackMs) {
-			x.R.Skipped = "tie"
+		if x.undecidable(op, c.Data) {
 			return
 		}
 		x.Viol("C07", "range-vs-instant", kind+"|"+shape, fmt.Sprintf("%s [%d..%d step %d]: %s", op.Q, op.Start, op.End, op.Step, detail))
